@@ -68,3 +68,32 @@ macro_rules! verif_env {
 		$($item)*
 	};
 }
+
+/// verif_env + table-file stubs (3.2) + array-backed per-record overlay (3.4).
+#[macro_export]
+macro_rules! verif_tbl {
+	($($item:tt)*) => {
+		#[kani::stub(parking_lot::RawRwLock::lock_exclusive_slow, crate::verif_common::rw_lock_exclusive_slow)]
+		#[kani::stub(parking_lot::RawRwLock::unlock_exclusive_slow, crate::verif_common::rw_unlock_exclusive_slow)]
+		#[kani::stub(parking_lot::RawRwLock::lock_shared_slow, crate::verif_common::rw_lock_shared_slow)]
+		#[kani::stub(parking_lot::RawRwLock::unlock_shared_slow, crate::verif_common::rw_unlock_shared_slow)]
+		#[kani::stub(parking_lot::RawRwLock::lock_upgradable_slow, crate::verif_common::rw_lock_upgradable_slow)]
+		#[kani::stub(parking_lot::RawRwLock::unlock_upgradable_slow, crate::verif_common::rw_unlock_upgradable_slow)]
+		#[kani::stub(parking_lot::RawRwLock::upgrade_slow, crate::verif_common::rw_upgrade_slow)]
+		#[kani::stub(parking_lot::RawRwLock::downgrade_slow, crate::verif_common::rw_downgrade_slow)]
+		#[kani::stub(parking_lot::RawRwLock::downgrade_to_upgradable_slow, crate::verif_common::rw_downgrade_to_upgradable_slow)]
+		#[kani::stub(parking_lot::RawMutex::lock_slow, crate::verif_common::mx_lock_slow)]
+		#[kani::stub(parking_lot::RawMutex::unlock_slow, crate::verif_common::mx_unlock_slow)]
+		#[kani::stub(alloc::fmt::format, crate::verif_common::fmt_stub)]
+		#[kani::stub(std::hash::RandomState::new, crate::verif_common::fixed_random_state)]
+		#[kani::stub(crate::file::TableFile::read_at, crate::file::verif_kani::stub_read_at)]
+		#[kani::stub(crate::file::TableFile::slice_at, crate::file::verif_kani::stub_slice_at)]
+		#[kani::stub(crate::file::TableFile::write_at, crate::file::verif_kani::stub_write_at)]
+		#[kani::stub(crate::file::TableFile::flush, crate::file::verif_kani::stub_flush)]
+		#[kani::stub(crate::file::TableFile::grow, crate::file::verif_kani::stub_grow)]
+		#[kani::stub(crate::log::LogWriter::insert_value, crate::log::verif_kani::ov_insert_value)]
+		#[kani::stub(<crate::log::LogWriter as crate::log::LogQuery>::value, crate::log::verif_kani::ov_value)]
+		#[kani::stub(<crate::log::LogWriter as crate::log::LogQuery>::value_ref, crate::log::verif_kani::ov_value_ref)]
+		$($item)*
+	};
+}
